@@ -6,7 +6,8 @@ Import ListNotations.
 Require Import Nib.Lib.Dec Nib.C10.Model Nib.C10.Spec Nib.C12.Model Nib.C12.Spec.
 Local Open Scope Z_scope.
 
-Record case := mkCase { c_params : oparams; c_steps : list (op * sobs * list avote) }.
+(** every step carries the parameters in force when it ran (the initial ones until the first edit) *)
+Record case := mkCase { c_steps : list (oparams * op * sobs * list avote) }.
 
 Definition model_agrees (r : hresult) (o : sobs) (vs : list avote) : bool :=
   match r with
@@ -14,19 +15,19 @@ Definition model_agrees (r : hresult) (o : sobs) (vs : list avote) : bool :=
   | HOk s e => negb (so_panic o) && obs_eqb (obs_of (h12_os s) e) o && leqb avote_eqb (h12_store s) vs
   end.
 
-Fixpoint run_cmp (q : oparams) (s : hst12) (l : list (op * sobs * list avote)) : bool :=
+Fixpoint run_cmp (s : hst12) (l : list (oparams * op * sobs * list avote)) : bool :=
   match l with
   | [] => true
-  | (o, ob, vs) :: r =>
+  | (q, o, ob, vs) :: r =>
       let res := hstep12 true q s o in
       model_agrees res ob vs &&
       match res with
       | HPanic => true
-      | HOk s' _ => run_cmp q s' r
+      | HOk s' _ => run_cmp s' r
       end
   end.
 
 Definition empty_os : ostate := mkOS [] [] [].
 
-Definition mismatch (c : case) : bool := negb (run_cmp (c_params c) (mkHst12 empty_os []) (c_steps c)).
-Definition violates (c : case) : bool := negb (Pb_history12 (c_params c) empty_sobs [] (c_steps c)).
+Definition mismatch (c : case) : bool := negb (run_cmp (mkHst12 empty_os []) (c_steps c)).
+Definition violates (c : case) : bool := negb (Pb_history12v empty_sobs [] (c_steps c)).
